@@ -262,7 +262,9 @@ class Ctx:
         p = self.run_sfh(["script"], text, timeout=timeout, variant=variant, env=env)
         return p.stdout.split("\n")[:-1] if p.stdout.endswith("\n") else p.stdout.split("\n"), p.returncode, p.stderr
 
-    def batch(self, scripts, variant="asan", op_timeout=10, workers=16, env=None):
+    TRANSCRIPT_PREFIXES = ("ret=", "open=", "len=", "it=", "err=", "msg=", "size_ret=", "bad-", "ok", "calls=", "CRASH", "ABORT", "TIMEOUT")
+
+    def batch(self, scripts, variant="asan", op_timeout=10, workers=16, env=None, clean=False):
         """scripts: list of (name, text). Runs them in forked children inside `workers` harness processes.
         Returns dict name -> list of transcript lines (with CRASH/ABORT/TIMEOUT markers)."""
         if not scripts:
@@ -282,6 +284,10 @@ class Ctx:
                     cur = line[3:]
                     res[cur] = []
                 elif cur is not None:
+                    # the library itself prints to stdout in a few places (alac.c, sds.c, sf_error_number): with clean=True
+                    # only harness transcript lines are kept
+                    if clean and not line.startswith(self.TRANSCRIPT_PREFIXES):
+                        continue
                     res[cur].append(line)
             return res
 
